@@ -37,15 +37,17 @@ def isDigit (c : Char) : Bool := '0' ≤ c ∧ c ≤ '9'
 
 def digitsVal (cs : List Char) : Nat := cs.foldl (fun a c => 10 * a + (c.toNat - '0'.toNat)) 0
 
+def digitsOf (cs : List Char) : List Char :=
+  if cs.head? = some '-' ∨ cs.head? = some '+' then cs.tail else cs
+
+def signedVal (neg : Bool) (v : Nat) : Int := if neg then -(v : Int) else (v : Int)
+
 /-- `strconv.ParseInt(s, 10, 64)`: optional sign, one or more ASCII digits, range of int64. -/
 def parseInt64 (s : String) : Option Int :=
-  let cs := s.toList
-  let neg := cs.head? = some '-'
-  let ds := if cs.head? = some '-' ∨ cs.head? = some '+' then cs.tail else cs
+  let ds := digitsOf s.toList
   if ds.isEmpty ∨ !ds.all isDigit then none
   else
-    let v : Int := digitsVal ds
-    let r := if neg then -v else v
+    let r := signedVal (s.toList.head? == some '-') (digitsVal ds)
     if r < -(2:Int)^63 ∨ r > (2:Int)^63 - 1 then none else some r
 
 /-- wrap an integer into the int64 range -/
